@@ -311,6 +311,33 @@ def runSrvAnswer (f : Facts) (t : Transport) : Json := Id.run do
   let s := apply f cfg (init cfg) [.starterRun, .srvRequest, .closeBegin, .closeEnd, .readerExit, .watcherExit, .closeWaitExit]
   return Json.mkObj [("ledger", ledgerJson s [])]
 
+/-- One call (0) stalled mid-stream — headers then silence (or part of a frame) — while other operations run on the same
+    client: a call answered at once, RegisterNotificationHandler, another call answered at once, Unregister…, SetRootsProvider
+    (a lock of its own), Close(); then what has become of the stalled call. -/
+def runConcurrent (f : Facts) (t : Transport) : Json := Id.run do
+  let cfg : Cfg := { t := t }
+  let sc : Scen := { t := t, fr := .chunked, handlers := false, n := 3, answered := 0, fault := .none, pos := .frameEnd, ctx := "none",
+                     post := false, accept := false, afterInit := false, closeLive := true }
+  let blocked := fun (s : St) => !f.lockFree && s.heldReads > 0
+  let word := fun (b : Bool) => if b then "blocked" else "ok"
+  let mut s := apply f cfg (init cfg) [.issue 0]
+  if t.http then s := apply f cfg s [.headers 0 true]
+  s := apply f cfg s ([.issue 1] ++ answerFully sc 1)
+  let (s1, b) := finish f cfg s 1 false
+  s := s1
+  let reg := word (blocked s)
+  s := apply f cfg s [.handlerOp]
+  s := apply f cfg s ([.issue 2] ++ answerFully sc 2)
+  let (s2, c) := finish f cfg s 2 false
+  s := s2
+  let unreg := word (blocked s)
+  s := apply f cfg s [.handlerOp]
+  let cl := word (blocked s)
+  s := apply f cfg s [.closeBegin, .closeEnd, .readerExit, .watcherExit, .closeWaitExit]
+  let (_, a) := finish f cfg s 0 false
+  return Json.mkObj [("callB", Json.str (b.getD "hung")), ("register", Json.str reg), ("callC", Json.str (c.getD "hung")),
+    ("unregister", Json.str unreg), ("roots", Json.str "ok"), ("close", Json.str cl), ("stalled", Json.str (a.getD "waiting"))]
+
 def handle (op : String) (j : Json) : Except String Json := do
   let tb := Mcp.Gen.CallFacts.clTables
   match op with
@@ -324,6 +351,9 @@ def handle (op : String) (j : Json) : Except String Json := do
   | "handshake" =>
     let t ← transportOf (← getStr j "t")
     pure (runHandshake (factsOf tb t) t (← getStr j "step") ((← getStr j "close") == "during") (← getBool j "getSSE"))
+  | "concurrent" =>
+    let t ← transportOf (← getStr j "t")
+    pure (runConcurrent (factsOf tb t) t)
   | "backoff" =>
     let t ← transportOf (← getStr j "t")
     pure (runBackoff (factsOf tb t) t (← getStr j "when"))
